@@ -102,6 +102,16 @@ Proof. exact retire_held. Qed.
 Theorem C17_closed_session_keeps_prepared : forall d, is_prepared (srv_kill d) = is_prepared d.
 Proof. exact kill_keeps_prepared. Qed.
 
+(* the two-phase timeout checker (servers >= 8.0.29) leaves a held connection alone while its
+   branch is PREPARED within the hold time, and always while it is still in phase one; whatever it
+   closes, a PREPARED branch stays PREPARED (C17_closed_session_keeps_prepared): committing or
+   rolling back remains the coordinator's decision *)
+Theorem C17_checker_hold : forall s c, c_pt (get_cst s c) = PPrep -> due s false c = false.
+Proof. exact due_hold. Qed.
+
+Theorem C17_checker_phase_one : forall s e c, c_pt (get_cst s c) = PZero -> due s e c = false.
+Proof. exact due_phase_one. Qed.
+
 (* ---- non-vacuity *)
 Definition ex_env : env :=
   {| e_detach := false;
@@ -151,6 +161,17 @@ Example C17_run_nonvacuous :
                                 OOk; OErrBad; OOk; OSkipped]
   /\ length (journal ex_env ex_prog) = 43%nat.
 Proof. vm_compute. repeat split. Qed.
+
+(* server >= 8.0.29: the checker within the hold time closes nothing, after it closes session 1;
+   phase two then finishes the (detached) PREPARED branch on a new session *)
+Example C17_checker_nonvacuous :
+  let E := {| e_detach := true; e_xid := e_xid ex_env; e_bid := e_bid ex_env; e_refuse := fun _ => false;
+              e_fault := fun _ _ => false; e_fbad := fun _ _ => false |} in
+  let p := [OAuto 0 None false; OCheck false; OCheck true; OPhase2 0 true false] in
+  outcomes E p = [OOk; OChk []; OChk [1%nat]; OP2 true]
+  /\ cmds_of (xa_id (e_xid E 0) 100) (journal E p) = [(START, ROk); (STMT, ROk); (END_, ROk); (PREPARE, ROk); (COMMIT, ROk)]
+  /\ In (ESql 2 COMMIT (xa_id (e_xid E 0) 100) ROk) (journal E p).
+Proof. vm_compute. repeat split. auto 10. Qed.
 
 Example C17_ident_nonvacuous :
   xa_id (bytes_of_string "a-1") 23 = bytes_of_string "a-1-23"
